@@ -154,6 +154,11 @@ EXPRS = {
     'e8': 'amt2 > 10 or lim2 > 1',
     'e9': '(big2 := amount) > 0 and (description := "zz") == "zz" and amount < "x"',
     'e10': 'big2 > 1 or description == "zz"',
+    # patterns that differ only in the letter case of an escape class mean different things
+    'e11': 'regex("shop \\\\d") or regex("STORE \\\\S\\\\d")',
+    'e12': 'regex("shop \\\\D") or regex("STORE \\\\s\\\\D")',
+    'e13': 'extract("(\\\\w+)$")',
+    'e14': 'extract("(\\\\W+)$")',
 }
 
 
